@@ -27,6 +27,7 @@ struct Ctx {
     rg: PathBuf,
     scratch: PathBuf,
     can_drop: bool,
+    have_pcre2: bool,
     counter: usize,
     refs: HashMap<String, RunOut>,
 }
@@ -511,9 +512,10 @@ fn run_fault(case: &str, c: &FaultCase, ctx: &mut Ctx, drv: &mut Driver, rep: &m
 
 // ------------------------------------------------------------------ invalid arguments
 
-const BAD_KINDS: [&str; 16] = [
+const BAD_KINDS: [&str; 22] = [
     "regex-paren", "regex-repeat", "regex-class", "glob-range", "glob-brace", "iglob", "enc", "flag", "value-m",
     "value-j", "patfile-dir", "patfile-missing", "type", "sort", "pre-glob", "max-filesize",
+    "patfile-badutf8", "patfile-mixed", "e-mixed", "type-add", "config-bad-flag", "pcre2",
 ];
 
 fn gen_bad(rng: &mut Rng) -> String {
@@ -551,7 +553,8 @@ fn run_bad(case: &str, ctx: &mut Ctx, drv: &mut Driver, rep: &mut Report) {
     let sfirst = f.get("sfirst").map_or(false, |v| v == "1");
     let extra = f.get("extra").map_or("-", |v| v.as_str());
     let mut cmd = Command::new(&ctx.rg);
-    cmd.current_dir(&dir).args(["--color", "never", "--no-config"]).arg(format!("-j{}", j));
+    cmd.current_dir(&dir).args(["--color", "never"]).arg(format!("-j{}", j));
+    if kind != "config-bad-flag" { cmd.arg("--no-config"); }
     if q == "1" { cmd.arg("-q"); }
     if matches!(extra, "-i" | "-n" | "--hidden") { cmd.arg(extra); }
     if special != "-" && sfirst { cmd.arg(special); rep.branch("bad:with-special-mode-first"); }
@@ -574,6 +577,31 @@ fn run_bad(case: &str, ctx: &mut Ctx, drv: &mut Driver, rep: &mut Report) {
         "sort" => { cmd.args(["--sort", "size"]); }
         "pre-glob" => { cmd.args(["--pre", "cat", "--pre-glob", "[z-a]"]); }
         "max-filesize" => { cmd.args(["--max-filesize", "1x"]); }
+        "patfile-badutf8" => {
+            std::fs::write(dir.join("pats"), b"needle\xff\n").unwrap();
+            cmd.args(["-f", "pats"]);
+            pattern = None;
+        }
+        "patfile-mixed" => {
+            // one valid and one invalid pattern
+            std::fs::write(dir.join("pats"), b"needle\n(\n").unwrap();
+            cmd.args(["-f", "pats"]);
+            pattern = None;
+            setup_err = true;
+        }
+        "e-mixed" => { cmd.args(["-e", "needle", "-e", "("]); pattern = None; setup_err = true; }
+        "type-add" => { cmd.args(["--type-add", "nocolon"]); }
+        "config-bad-flag" => {
+            // an invalid flag in the configuration file is an invalid flag
+            std::fs::write(dir.join("rc"), b"--no-such-flag\n").unwrap();
+            cmd.env("RIPGREP_CONFIG_PATH", dir.join("rc"));
+            cmd.arg("--ignore-case"); // anything; `--no-config` must not be given here
+        }
+        "pcre2" => {
+            if ctx.have_pcre2 { remove_tree(&dir); return; }
+            cmd.arg("-P");
+            setup_err = true;
+        }
         _ => { rep.notes.push(format!("unparsable case: {}", case)); return; }
     }
     if special != "-" && !sfirst { cmd.arg(special); rep.branch("bad:with-special-mode-last"); }
@@ -660,6 +688,8 @@ fn pipe_args(tree: &str, mode: &str, j: usize, lb: bool, err: bool, pre: bool, r
         "files" => a.push("--files".into()),
         "passthru" => { a.push("--passthru".into()); a.push("nomatchatall".into()); }
         "count" => { a.push("-c".into()); a.push("needle".into()); }
+        "stats" => { a.push("--stats".into()); a.push("needle".into()); }
+        "json" => { a.push("--json".into()); a.push("needle".into()); }
         _ => a.push("needle".into()),
     }
     if err { a.push("missing-path".into()); }
@@ -731,7 +761,7 @@ fn run_pipe(case: &str, ctx: &mut Ctx, drv: &mut Driver, rep: &mut Report) {
             items[last] = format!("({} {} p o)", fk, i);
         }
     }
-    let cfg = cfg_sx(&mode, par, false, false, true, false, true, true);
+    let cfg = cfg_sx(&mode, par, false, mode == "stats", true, false, true, true);
     let items_sx = format!("(items {})", items.join(" "));
     let model = drv.ask(&format!("c15.run {} ok {}", cfg, items_sx));
     let guard = drv.ask(&format!("c15.guard {} {}", cfg, items_sx));
@@ -801,7 +831,7 @@ fn run_pipe(case: &str, ctx: &mut Ctx, drv: &mut Driver, rep: &mut Report) {
 
 fn gen_pipe(rng: &mut Rng, k: usize) -> String {
     let tree = *rng.pick(&["one", "multi", "multi", "many"]);
-    let mode = if tree == "many" { "files" } else { *rng.pick(&["std", "std", "passthru", "count"]) };
+    let mode = if tree == "many" { "files" } else { *rng.pick(&["std", "std", "passthru", "count", "stats", "json"]) };
     format!(
         "pipe tree={} mode={} j={} lb={} err={} pre={} k={}",
         tree,
@@ -814,6 +844,215 @@ fn gen_pipe(rng: &mut Rng, k: usize) -> String {
     )
 }
 
+// ------------------------------------------------------------------ further error sources: stdin, the output device, the configuration file
+
+const CLASS_FLUSH: &str = "write-error-at-final-flush-ignored";
+const CLASS_CONFIG: &str = "config-file-error-does-not-set-exit-status";
+const MISC_KINDS: [&str; 18] = [
+    "config-missing", "config-dir", "patfile-empty", "stdin-match", "stdin-nomatch", "stdin-dir", "full-std-small", "full-std-big",
+    "full-count-small", "full-files-small", "full-files-big", "full-json-small", "full-nomatch", "full-quiet",
+    "special-plain", "special-badregex", "special-full", "special-pipe",
+];
+/// the modes that do not search (`w=k` picks one)
+const SPECIALS: [&[&str]; 8] = [&["--help"], &["-h"], &["--version"], &["-V"], &["--type-list"], &["--pcre2-version"], &["--generate", "man"], &["--generate", "complete-zsh"]];
+
+fn gen_misc(rng: &mut Rng) -> String {
+    format!("misc kind={} j={} lb={} w={}", rng.pick(&MISC_KINDS), if rng.chance(1, 2) { 1 } else { 4 }, rng.chance(1, 4) as u8, rng.below(8))
+}
+
+fn run_misc(case: &str, ctx: &mut Ctx, drv: &mut Driver, rep: &mut Report) {
+    let f = fields(case);
+    let (Some(kind), Some(j)) = (f.get("kind"), f.get("j").and_then(|v| v.parse::<usize>().ok())) else {
+        rep.notes.push(format!("unparsable case: {}", case));
+        return;
+    };
+    let lb = f.get("lb").map_or(false, |v| v == "1");
+    if !MISC_KINDS.contains(&kind.as_str()) {
+        rep.notes.push(format!("unparsable case: {}", case));
+        return;
+    }
+    rep.eval();
+    ctx.counter += 1;
+    let dir = fresh_dir(&ctx.scratch, &format!("m{}", ctx.counter));
+    let t = dir.join("t");
+    std::fs::create_dir_all(t.join("sub")).unwrap();
+    std::fs::write(t.join("a.txt"), "needle one\nplain\n").unwrap();
+    std::fs::write(t.join("sub/b.txt"), "needle two\n").unwrap();
+    rep.branch(&format!("misc:{}", kind));
+    rep.nontrivial(case);
+    let base = |cmd: &mut Command| {
+        cmd.current_dir(&dir).args(["--color", "never"]).arg(format!("-j{}", j));
+        if lb { cmd.arg("--line-buffered"); }
+    };
+    let par = j > 1;
+    let mut problems: Vec<(String, &'static str)> = vec![];
+    let mut mproblems: Vec<String> = vec![];
+    match kind.as_str() {
+        "config-missing" | "config-dir" => {
+            // a configuration file that cannot be read: a diagnostic, the results of the search, status 2
+            let mut cmd = Command::new(&ctx.rg);
+            base(&mut cmd);
+            cmd.env("RIPGREP_CONFIG_PATH", if kind == "config-dir" { t.clone() } else { dir.join("no-such-rc") });
+            cmd.args(["needle", "t"]);
+            let out = run_cmd(&mut cmd, None);
+            let lines = sorted_lines(&out.stdout);
+            if lines != vec![b"t/a.txt:needle one".to_vec(), b"t/sub/b.txt:needle two".to_vec()] {
+                problems.push((format!("results suppressed or altered: {}", show(&out.stdout)), ""));
+            }
+            let diag = out.stderr_str().contains("RIPGREP_CONFIG_PATH");
+            if !diag { problems.push(("no diagnostic about the configuration file".into(), "")); }
+            if out.exit() != 2 {
+                // class — mechanism test: RIPGREP_CONFIG_PATH names something unreadable, rg says so on stderr
+                // (through `message!`, which leaves the error flag alone), and the status is that of an undisturbed run
+                let mech = diag && out.exit() == 0;
+                rep.branch(&format!("class:{}:{}", CLASS_CONFIG, if mech { "attributed" } else { "mechanism-absent" }));
+                problems.push((format!("an error was reported ({}) but the exit status is {}", show(&out.stderr[..out.stderr.len().min(160)]), out.exit()),
+                    if mech { CLASS_CONFIG } else { "" }));
+            }
+        }
+        "patfile-empty" => {
+            // no pattern at all: nothing can match, nothing is searched, no error
+            std::fs::write(dir.join("pats"), b"").unwrap();
+            let mut cmd = Command::new(&ctx.rg);
+            base(&mut cmd);
+            cmd.args(["--no-config", "-f", "pats", "t", "missing-path"]);
+            let out = run_cmd(&mut cmd, None);
+            let model = drv.ask(&format!("c15.run {} ok (items s (f 0 m o) (f 1 m o) w)", cfg_sx("std", par, false, false, true, false, false, true)));
+            if model != "exit 1 out - diags -" { mproblems.push(format!("model answers {}", model)); }
+            if out.exit() != 1 || !out.stdout.is_empty() || !out.stderr.is_empty() {
+                problems.push((format!("rg exit {} stdout {} stderr {}", out.exit(), show(&out.stdout), show(&out.stderr)), ""));
+            }
+        }
+        k if k.starts_with("special-") => {
+            // a mode that does not search: status 0 (--pcre2-version: 1 when PCRE2 is not compiled in), whatever else is on the
+            // command line that the flag parser accepts; a write error is an error; a closed pipe is not
+            let w = f.get("w").and_then(|v| v.parse::<usize>().ok()).unwrap_or(0) % SPECIALS.len();
+            let mode = SPECIALS[w];
+            let mk = |extra: &[&str]| {
+                let mut cmd = Command::new(&ctx.rg);
+                cmd.current_dir(&dir).arg("--no-config").args(mode).args(extra);
+                cmd
+            };
+            let want = if mode[0] == "--pcre2-version" && !ctx.have_pcre2 { 1 } else { 0 };
+            let plain = run_cmd(&mut mk(&[]), None);
+            if plain.exit() != want || plain.stdout.is_empty() || !plain.stderr.is_empty() {
+                problems.push((format!("rg {}: exit {} (expected {}), {} bytes, stderr {}", mode.join(" "), plain.exit(), want, plain.stdout.len(), show(&plain.stderr)), ""));
+            }
+            match k {
+                "special-badregex" => {
+                    // patterns and paths are not looked at
+                    let out = run_cmd(&mut mk(&["-e", "(", "no-such-path"]), None);
+                    if out.exit() != want || out.stdout != plain.stdout || !out.stderr.is_empty() {
+                        problems.push((format!("rg {} -e '(' no-such-path: exit {} stderr {}", mode.join(" "), out.exit(), show(&out.stderr)), ""));
+                    }
+                }
+                "special-full" => {
+                    let out = run_cmd_redirected(&mut mk(&[]), Some(std::path::Path::new("/dev/full")), None);
+                    if out.exit() != 2 || out.stderr.is_empty() {
+                        // class — mechanism test: --type-list (the one mode that prints through a buffered writer whose final
+                        // flush is left to drop), stdout is /dev/full, and rg behaves exactly as if undisturbed
+                        let mech = mode[0] == "--type-list" && out.exit() == plain.exit() && out.stderr.is_empty();
+                        rep.branch(&format!("class:{}:{}", CLASS_FLUSH, if mech { "attributed" } else { "mechanism-absent" }));
+                        problems.push((format!("rg {} > /dev/full: {} bytes could not be written, yet exit {} stderr {}", mode.join(" "), plain.stdout.len(), out.exit(), show(&out.stderr)),
+                            if mech { CLASS_FLUSH } else { "" }));
+                    }
+                }
+                "special-pipe" => {
+                    let (out, _) = run_cmd_close_after(&mut mk(&[]), 0);
+                    if out.exit() != want || !out.stderr.is_empty() {
+                        problems.push((format!("rg {} into a closed pipe: exit {} stderr {}", mode.join(" "), out.exit(), show(&out.stderr)), ""));
+                    }
+                }
+                _ => {}
+            }
+        }
+        "stdin-match" | "stdin-nomatch" | "stdin-dir" => {
+            // stdin as one of several inputs; a stdin that cannot be read is a file that cannot be read
+            let mut cmd = Command::new(&ctx.rg);
+            base(&mut cmd);
+            cmd.args(["--no-config", "--with-filename", "needle", "-", "t/a.txt"]);
+            let out = match kind.as_str() {
+                "stdin-dir" => run_cmd_redirected(&mut cmd, None, Some(&t)),
+                "stdin-match" => run_cmd(&mut cmd, Some(b"plain\nneedle from stdin\n")),
+                _ => run_cmd(&mut cmd, Some(b"plain only\n")),
+            };
+            let sr = match kind.as_str() { "stdin-dir" => "e", "stdin-match" => "m", _ => "n" };
+            let cfg = cfg_sx("std", par, false, false, true, false, true, true);
+            let items = format!("(items (f 0 {} o) (f 1 m o))", sr);
+            let model = drv.ask(&format!("c15.run {} ok {}", cfg, items));
+            let spec = drv.ask(&format!("c15.spec {} {}", cfg, items));
+            let mut want: Vec<Vec<u8>> = vec![b"t/a.txt:needle one".to_vec()];
+            if sr == "m" { want.push(b"<stdin>:needle from stdin".to_vec()); }
+            want.sort();
+            if sorted_lines(&out.stdout) != want { problems.push((format!("results: {}", show(&out.stdout)), "")); }
+            let diag = out.stderr_str().contains("<stdin>");
+            if diag != (sr == "e") { problems.push((format!("diagnostic for stdin: {} ({})", diag, show(&out.stderr)), "")); }
+            match (parse_reply(&model), parse_reply(&spec)) {
+                (Some((m_exit, _, _)), Some((s_exit, _, _))) => {
+                    if out.exit() != m_exit { mproblems.push(format!("exit {} vs model {}", out.exit(), m_exit)); }
+                    if out.exit() != s_exit { problems.push((format!("exit {} vs contract {}", out.exit(), s_exit), "")); }
+                }
+                _ => mproblems.push(format!("driver replies {} / {}", model, spec)),
+            }
+        }
+        _ => {
+            // stdout is a device that accepts nothing (/dev/full): a write error is an error
+            let (mode_args, big): (Vec<&str>, bool) = match kind.as_str() {
+                "full-std-small" => (vec!["needle"], false),
+                "full-std-big" => (vec!["needle"], true),
+                "full-count-small" => (vec!["-c", "needle"], false),
+                "full-files-small" => (vec!["--files"], false),
+                "full-files-big" => (vec!["--files"], true),
+                "full-json-small" => (vec!["--json", "needle"], false),
+                "full-nomatch" => (vec!["nomatchatall"], false),
+                _ => (vec!["-q", "needle"], false),
+            };
+            let root = if big { pipe_tree(ctx, if mode_args[0] == "--files" { "many" } else { "multi" }) } else { dir.clone() };
+            let target = if big { "d" } else { "t" };
+            let mk = || {
+                let mut cmd = Command::new(&ctx.rg);
+                cmd.current_dir(&root).args(["--color", "never", "--no-config"]).arg(format!("-j{}", j));
+                if lb { cmd.arg("--line-buffered"); }
+                cmd.args(&mode_args).arg(target);
+                cmd
+            };
+            let reference = run_cmd(&mut mk(), None);
+            let out = run_cmd_redirected(&mut mk(), Some(std::path::Path::new("/dev/full")), None);
+            let writes_something = !reference.stdout.is_empty();
+            if out.timed_out { problems.push(("rg did not terminate".into(), "")); }
+            if !writes_something {
+                // nothing to write: the device does not matter
+                if out.exit() != reference.exit() || !out.stderr.is_empty() {
+                    problems.push((format!("nothing is written, yet exit {} (undisturbed: {}) stderr {}", out.exit(), reference.exit(), show(&out.stderr)), ""));
+                }
+            } else if out.exit() != 2 || out.stderr.is_empty() {
+                // class — mechanism test: stdout is /dev/full, the undisturbed run writes less than a buffer's worth
+                // (so the only write is the flush when the writer is dropped, whose error is discarded), rg runs a
+                // buffered single-writer path (one thread, or --files), and it behaves exactly as if undisturbed
+                let buffered_path = j == 1 || mode_args[0] == "--files";
+                let mech = reference.stdout.len() < 8192 && !lb && buffered_path && out.exit() == reference.exit() && out.stderr.is_empty();
+                rep.branch(&format!("class:{}:{}", CLASS_FLUSH, if mech { "attributed" } else { "mechanism-absent" }));
+                problems.push((format!("{} bytes could not be written to stdout (No space left on device), yet exit {} stderr {}",
+                    reference.stdout.len(), out.exit(), show(&out.stderr[..out.stderr.len().min(160)])), if mech { CLASS_FLUSH } else { "" }));
+            }
+        }
+    }
+    if !mproblems.is_empty() {
+        rep.violation(Violation {
+            kind: "impl_vs_model".into(), class: "".into(), tie: "rg exit status vs Model.Exit.main".into(),
+            case: case.to_string(), detail: mproblems.join("; "),
+        });
+    }
+    for (p, class) in problems {
+        rep.violation(Violation {
+            kind: "impl_vs_spec".into(), class: class.into(),
+            tie: "exit status 2 and a diagnostic when an error occurred; other results intact".into(),
+            case: case.to_string(), detail: p,
+        });
+    }
+    remove_tree(&dir);
+}
+
 fn run_case(case: &str, ctx: &mut Ctx, drv: &mut Driver, rep: &mut Report) {
     match case.split(' ').next() {
         Some("fault") => match parse_fault(case) {
@@ -822,6 +1061,7 @@ fn run_case(case: &str, ctx: &mut Ctx, drv: &mut Driver, rep: &mut Report) {
         },
         Some("bad") => run_bad(case, ctx, drv, rep),
         Some("pipe") => run_pipe(case, ctx, drv, rep),
+        Some("misc") => run_misc(case, ctx, drv, rep),
         _ => rep.notes.push(format!("unparsable case: {}", case)),
     }
 }
@@ -834,7 +1074,8 @@ fn main() {
         "fault: generated trees (0-8 entries: healthy matching/non-matching files, mode-000 files and directories searched \
          with privileges dropped, dangling symlinks with and without -L, explicit missing / dangling paths, files removed or \
          truncated by a --pre script between listing and opening) x modes standard/-c/-l/--json/--passthru/--files x -j1/-j4 x \
-         --quiet/--sort/--stats/--no-messages/implicit path/-m0; bad: 16 kinds of invalid arguments, the flag-parser ones also combined with -h/--help/-V/--version (before and after) and other valid flags; pipe: stdout closed after k \
+         --quiet/--sort/--stats/--no-messages/implicit path/-m0; bad: 16 kinds of invalid arguments, the flag-parser ones also combined with -h/--help/-V/--version (before and after) and other valid flags; misc: the modes that do not search (--help/-h/--version/-V/--type-list/--pcre2-version/--generate: plain, with an invalid pattern and a missing path, into /dev/full, into a closed pipe), an unreadable configuration file, an empty pattern file, stdin as one of the inputs (matching, not matching, unreadable), \
+         stdout on /dev/full (small and large outputs, standard/-c/--json/--files/-q/no match, line buffered or not); pipe: stdout closed after k \
          bytes (k sampled; every k <= 200 in thorough) on outputs larger than the pipe, -j1/-j4, block/line buffered, with and \
          without a reported fault, with and without --pre. Non-trivial: a fault together with at least one healthy result and \
          >= 2 entries; every invalid-argument case; a pipe case in which rg must run into EPIPE. Distinct by case text. \
@@ -848,7 +1089,12 @@ fn main() {
     if !can_drop {
         rep.notes.push("privileges cannot be dropped here: mode-000 faults are skipped (other fault sources still run)".into());
     }
-    let mut ctx = Ctx { rg, scratch: args.scratch.clone(), can_drop, counter: 0, refs: HashMap::new() };
+    let have_pcre2 = {
+        let mut c = Command::new(&rg);
+        c.arg("--pcre2-version");
+        run_cmd(&mut c, None).code == Some(0)
+    };
+    let mut ctx = Ctx { rg, scratch: args.scratch.clone(), can_drop, have_pcre2, counter: 0, refs: HashMap::new() };
     for c in corpus_cases(&args) {
         run_case(&c, &mut ctx, &mut drv, &mut rep);
     }
@@ -856,7 +1102,7 @@ fn main() {
         let mut rng = Rng::new(args.seed);
         let n_fault = args.cases.unwrap_or(if args.thorough { 12000 } else { 1200 });
         for i in 0..n_fault {
-            let case = if i % 12 == 11 { gen_bad(&mut rng) } else { gen_fault(&mut rng, i % 10 == 9) };
+            let case = if i % 12 == 11 { gen_bad(&mut rng) } else if i % 12 == 5 { gen_misc(&mut rng) } else { gen_fault(&mut rng, i % 10 == 9) };
             if i < 4 { rep.sample(case.clone()); }
             run_case(&case, &mut ctx, &mut drv, &mut rep);
         }
